@@ -6,8 +6,8 @@
 From Coq Require Import List Arith ZArith Bool.
 Import ListNotations.
 From Acts.Gen Require Import GenState.
-From Acts.Model Require Import Engine Tree.
-From Acts.Proofs Require Import EngineLemmas Findings LogInv C02Ops.
+From Acts.Model Require Import Engine Tree Oracles.
+From Acts.Proofs Require Import EngineLemmas Findings ReviveInv LogInv C02Ops FinalProofs.
 
 (* full statement (false): forall w ops e t s, go w ops = Some e -> is_completed s = true -> msgs e t s <= 1 *)
 Theorem C08_once_refuted : exists w ops e t, go w ops = Some e /\ msgs e t SCompleted = 2.
@@ -25,6 +25,14 @@ Theorem C08_message_reports_current_state :
   forall ns c0 ops l1 l2 t s ins outs,
     trace (run ns c0 ops) = l1 ++ EMsg t s ins outs :: l2 -> s = cur c_none l1 t /\ s <> SPending /\ s <> SRunning.
 Proof. exact message_reports_current. Qed.
+(* ... and the messages of one task come in lifecycle order: between two messages of a task, with no revival of it by a
+   catch in between (`revivals l` lists the tasks revived in l), the stage of the reported state never decreases -- a
+   created message never follows a terminal one -- and a terminal report is never followed by a different one *)
+Theorem C08_messages_in_lifecycle_order :
+  forall ns c0 ops l1 l2 l3 t s1 i1 o1 s2 i2 o2,
+    trace (run ns c0 ops) = l1 ++ EMsg t s1 i1 o1 :: l2 ++ EMsg t s2 i2 o2 :: l3 -> ~ In t (revivals l2) ->
+    Oracles.stage s1 <= Oracles.stage s2 /\ (is_completed s1 = true -> s2 = s1).
+Proof. exact messages_in_lifecycle_order. Qed.
 (* non-vacuity: the created and the completed message of an interrupt act *)
 Example C08_example :
   let ns := [ Build_node 0 KWorkflow 0 [(ONormal, 1)] None None false [] dspec [] [] [] [] [] [] false;
@@ -36,4 +44,5 @@ Example C08_example :
 Proof. vm_compute. auto. Qed.
 Print Assumptions C08_once_refuted.
 Print Assumptions C08_message_reports_current_state.
+Print Assumptions C08_messages_in_lifecycle_order.
 Print Assumptions C08_partial_gate.
